@@ -214,6 +214,42 @@ Theorem c38_stats_roundtrip :
 Proof. exact SerialStats.stats_payload_roundtrip. Qed.
 Print Assumptions c38_stats_roundtrip.
 
+(* for the shapes stats.go has today, losses (b) and (c) cannot occur
+   (omitempty sits only on members whose empty value is their zero value, no
+   pointer points to a slice, map or pointer: c38_stats_shapes_plain, checked
+   on the generated table), so the guard is clause (a) alone: no enum member
+   at a rejected Unknown constant *)
+Theorem c38_stats_roundtrip_enum_guard :
+  forall (num F : Type) (num_of_int : Z -> num) (num_of_flt : F -> num)
+         (int_of_num : num -> option Z) (flt_of_num : num -> option F)
+         (fzero : F) (fis_zero : F -> bool),
+  (forall z, int_of_num (num_of_int z) = Some z) ->
+  (forall f, flt_of_num (num_of_flt f) = Some f) ->
+  forall t v,
+    has_type F (stats_fty t) v -> own_tag F t v -> enum_ok F (stats_fty t) v ->
+    exists j, marshal_stats num F num_of_int num_of_flt fis_zero t v = Ok j /\
+              unmarshal_stats num F int_of_num flt_of_num fzero j = Ok (t, v).
+Proof. exact SerialStats.stats_payload_roundtrip_enum. Qed.
+Print Assumptions c38_stats_roundtrip_enum_guard.
+
+Theorem c38_stats_shapes_plain :
+  forallb (fun t => SerialStats.plain_ty (stats_fty t)) all_stats_ty = true.
+Proof. exact SerialStats.stats_shapes_plain. Qed.
+Print Assumptions c38_stats_shapes_plain.
+
+(* and clause (a) is necessary: a Stats value with an enum member (top level,
+   no omitempty - where all enum members of stats.go sit) at a rejected
+   Unknown constant does not come back, whatever else it holds *)
+Theorem c38_stats_enum_guard_is_necessary :
+  forall (num F : Type) (num_of_int : Z -> num) (num_of_flt : F -> num)
+         (int_of_num : num -> option Z) (flt_of_num : num -> option F)
+         (fzero : F) (fis_zero : F -> bool) t vs j,
+    bad_enum_member F (shape_of t) vs ->
+    marshal_stats num F num_of_int num_of_flt fis_zero t (GStruct vs) = Ok j ->
+    unmarshal_stats num F int_of_num flt_of_num fzero j <> Ok (t, GStruct vs).
+Proof. exact SerialStats.stats_bad_enum_fails. Qed.
+Print Assumptions c38_stats_enum_guard_is_necessary.
+
 (* the same for any struct shape whose member names are distinct up to case
    (SessionDescription and ICECandidateInit are instances) *)
 Theorem c38_struct_roundtrip :
